@@ -94,7 +94,15 @@ func inYears(t time.Time) bool {
 // ---------------------------------------------------------------- generators
 
 func genDur(t *rapid.T) int64 {
-	switch rapid.IntRange(0, 7).Draw(t, "durclass") {
+	switch rapid.IntRange(0, 8).Draw(t, "durclass") {
+	case 8: // a whole number of hours / minutes / seconds of any magnitude, a few nanoseconds off (carries far from zero)
+		unit := rapid.SampledFrom([]int64{int64(time.Hour), int64(time.Minute), int64(time.Second)}).Draw(t, "unit")
+		k := rapid.Int64Range(1, math.MaxInt64/unit-1).Draw(t, "k")
+		d := k*unit + rapid.Int64Range(-3, 3).Draw(t, "off")
+		if rapid.Bool().Draw(t, "negbig") {
+			d = -d
+		}
+		return d
 	case 0:
 		return rapid.Int64().Draw(t, "any")
 	case 1: // sub-second digit patterns
@@ -240,6 +248,10 @@ func genLex(t *rapid.T) lexCase {
 			{"month-00", func() string { return date[:5] + "00" + date[7:] + "T" + clock + frac + zone }},
 			{"day-32", func() string { return date[:8] + "32" + "T" + clock + frac + zone }},
 			{"day-00", func() string { return date[:8] + "00" + "T" + clock + frac + zone }},
+			{"day-not-in-month", func() string {
+				// a day the named month does not have (the year 2023 is not a leap year, 2024 is)
+				return rapid.SampledFrom([]string{"2023-02-29", "2024-02-30", "2023-02-30", "2023-04-31", "2023-06-31", "2023-09-31", "2023-11-31", "1900-02-29", "2100-02-29"}).Draw(t, "badday") + "T" + clock + frac + zone
+			}},
 			{"hour-25", func() string { return date + "T25" + clock[2:] + frac + zone }},
 			{"minute-60", func() string { return date + "T" + clock[:3] + "60" + clock[5:] + frac + zone }},
 			{"trailing-garbage", func() string {
@@ -269,7 +281,7 @@ func genLex(t *rapid.T) lexCase {
 			expect = "dontcare"
 		}
 		switch m.name {
-		case "month-13", "month-00", "day-32", "day-00", "hour-25", "minute-60":
+		case "month-13", "month-00", "day-32", "day-00", "hour-25", "minute-60", "day-not-in-month":
 			expect = "reject"
 		}
 		return lexCase{text, expect, m.name}
@@ -1385,6 +1397,18 @@ func enumDurBoundaries(_ string, emit func(Case)) {
 			add(int64(1)<<sh + k)
 		}
 	}
+	// whole hours / minutes / seconds of every magnitude (a day, a year, a century, the largest), 0-3 ns off
+	for _, unit := range []int64{int64(time.Hour), int64(time.Minute), int64(time.Second)} {
+		for _, k := range []int64{1, 23, 24, 25, 999, 1000, 8759, 8760, 8761, 87600, 876000, 1_000_000, 2_562_046, math.MaxInt64/unit - 1} {
+			if k > math.MaxInt64/unit-1 {
+				continue
+			}
+			for off := int64(-3); off <= 3; off++ {
+				add(k*unit + off)
+				add(-(k*unit + off))
+			}
+		}
+	}
 }
 
 // enumMicroGrid: every whole microsecond below one second (complete in thorough,
@@ -1436,6 +1460,19 @@ func enumZones(_ string, emit func(Case)) {
 			for _, ns := range []int64{0, 123_456_789, 999_500_000, 499_999} {
 				emit(Case{Kind: "instant", Sec: s, Nsec: ns, ZoneMn: off})
 			}
+		}
+	}
+	// days the named month does not have, in every zone spelling, with and without fraction; and the leap days that exist
+	for _, d := range []string{"2023-02-29", "2024-02-30", "2023-02-30", "2023-02-31", "2023-04-31", "2023-06-31", "2023-09-31", "2023-11-31", "1900-02-29", "2100-02-29"} {
+		for _, z := range []string{"Z", "", "+00:00", "-08:00", "+05:30"} {
+			for _, f := range []string{"", ".5", ".123456789"} {
+				emit(Case{Kind: "lex", Str: d + "T10:00:00" + f + z, Expect: "reject", LexKind: "day-not-in-month"})
+			}
+		}
+	}
+	for _, d := range []string{"2024-02-29", "2000-02-29", "2023-02-28", "2023-12-31"} {
+		for _, z := range []string{"Z", "", "+05:30"} {
+			emit(Case{Kind: "lex", Str: d + "T10:00:00" + z, Expect: "accept", LexKind: "last-day-of-month"})
 		}
 	}
 	// the documented text forms, and instants, under every hour offset of the process's own zone
